@@ -365,11 +365,12 @@ fn peephole3_helper(lines: &[Line], index: usize, ret: &mut Vec<Line>) -> bool {
                         true
                     }
                     // FOLD FLOAT DIVISION
+                    // (not when dividing by +0.0 or -0.0: that is a runtime error)
                     (
                         Instr::PushFloat(a),
                         Instr::PushFloat(b),
                         Instr::DivFloat(Reg::Top, Reg::Top, Reg::Top),
-                    ) => {
+                    ) if b.parse::<f64>().unwrap() != 0.0 => {
                         let a = a.parse::<f64>().unwrap();
                         let b = b.parse::<f64>().unwrap();
                         let c = a / b;
